@@ -99,7 +99,7 @@ REGISTRY = {
                       {"module": "props.tokenizer", "units": ["lemmas", "process", "post_process", "iter_tokens", "tokenize"],
                        "also_tags": ["C01", "C02", "C03", "C04"], "opts": {"context": "split"}, "exclude": [":entry"]},
                       {"module": "props.validator", "units": ["to_array", "energy", "selector", "is_valid"], "also_tags": ["C07"]}],
-            "witness": "api", "assumptions": SPLIT_ASSUME + [
+            "witness": "api", "witness_also": [("api", "C09")], "assumptions": SPLIT_ASSUME + [
                 "the last sentence of C05 (regions are the tokenizer segmentation of the per-window decisions) is the "
                 "composition of the split wiring proved here with C01-C04 (tokenizer) and C07 (validator), whose units and "
                 "obligations are part of this check",
